@@ -431,6 +431,14 @@ pub fn payload_external(payload: &[u8], prev_sig: &[u8]) -> Vec<u8> {
     m
 }
 
+/// deprecated layout of the external signature (signature version 0): payload, then the key that signs the block
+pub fn payload_external_v0(payload: &[u8], previous_next_key: &schema::PublicKey) -> Vec<u8> {
+    let mut m = payload.to_vec();
+    m.extend_from_slice(&le32(previous_next_key.algorithm));
+    m.extend_from_slice(&previous_next_key.key);
+    m
+}
+
 /// the canonical encoding of a public key, as it enters signed payloads
 fn canon_key(k: &schema::PublicKey) -> Result<schema::PublicKey, String> {
     match k.algorithm {
@@ -454,6 +462,12 @@ fn canon_key(k: &schema::PublicKey) -> Result<schema::PublicKey, String> {
 
 /// verifies the whole token per the specification; returns per-block signature versions
 pub fn rsig_verify(bytes: &[u8], root_alg: i32, root_key: &[u8]) -> Result<Vec<u32>, String> {
+    rsig_verify_mode(bytes, root_alg, root_key, false)
+}
+
+/// `legacy`: what only `unsafe_deprecated_deserialize` admits - third-party blocks with signature version 0,
+/// whose external signature covers the payload and the previous block's next key
+pub fn rsig_verify_mode(bytes: &[u8], root_alg: i32, root_key: &[u8], legacy: bool) -> Result<Vec<u32>, String> {
     let t = schema::Biscuit::decode(bytes).map_err(|e| format!("decode: {e}"))?;
     let mut versions = vec![];
     let mut cur_alg = root_alg;
@@ -467,7 +481,7 @@ pub fn rsig_verify(bytes: &[u8], root_alg: i32, root_key: &[u8]) -> Result<Vec<u
         if i == 0 && ext.is_some() {
             return Err("authority with external signature".into());
         }
-        if ext.is_some() && v != 1 {
+        if ext.is_some() && v != 1 && !(legacy && v == 0) {
             return Err("third-party block must use signature version 1".into());
         }
         let m = payload_block(
@@ -482,7 +496,7 @@ pub fn rsig_verify(bytes: &[u8], root_alg: i32, root_key: &[u8]) -> Result<Vec<u
             .map_err(|e| format!("block {i} signature: {e}"))?;
         if let Some(e) = ext {
             let ek = canon_key(&e.public_key)?;
-            let m = payload_external(&b.block, &prev_sig);
+            let m = if v == 0 { payload_external_v0(&b.block, &schema::PublicKey { algorithm: cur_alg, key: cur_key.clone() }) } else { payload_external(&b.block, &prev_sig) };
             raw_verify(ek.algorithm, &ek.key, &m, &e.signature)
                 .map_err(|e| format!("block {i} external signature: {e}"))?;
         }
